@@ -359,7 +359,7 @@ func corpusC18(maxLen int) []cItem {
 	var rec func(cur []int)
 	rec = func(cur []int) {
 		if len(cur) > 0 && c18valid(cur) {
-			items = append(items, cItem{Name: fmt.Sprintf("C18/%v", cur), Files: map[string]string{"util/util.go": "package util\n\nvar last any\nvar count int\n\nfunc Set(v int) {\n\tlast = v\n\tcount++\n}\n\nfunc Last() any {\n\treturn last\n}\n\nfunc Count() int {\n\treturn count\n}\n", "ext/ext.go": "package ext\n\nimport \"util\"\n\nfunc Bump() {\n\tutil.Set(99)\n}\n\nfunc Twice(a int) int {\n\treturn a * 2\n}\n"}, EvalSrc: strings.Join(c18chunks(cur, 0), "")})
+			items = append(items, cItem{Name: fmt.Sprintf("C18/%v", cur), Files: c18files, EvalSrc: strings.Join(c18chunks(cur, 0), "")})
 		}
 		if len(cur) == maxLen {
 			return
